@@ -56,3 +56,13 @@ Proof.
   intros k Hk. rewrite (P0 x k Hk), (Q0 x k Hk). reflexivity.
 Qed.
 Print Assumptions c06_updates_agree.
+
+(* the partition does not depend on the ORDER in which dependencies are listed or discovered (nor on an
+   edge being listed twice): only the edge relation matters.  (Two seeded changes replaced the worklist by
+   order-dependent shortcuts; this is the statement they break.) *)
+Theorem c06_edge_order_irrelevant : forall (E E' : list edge) (ml r r' : list bool),
+  (forall a b, In (a, b) E <-> In (a, b) E') ->
+  (forall a b, In (a, b) E -> (b < length ml)%nat) ->
+  propagate_judgements E ml = Some r -> propagate_judgements E' ml = Some r' -> r = r'.
+Proof. exact propagate_judgements_edge_order. Qed.
+Print Assumptions c06_edge_order_irrelevant.
